@@ -169,6 +169,7 @@ class LoaderFacts:
 
 
 def facts(ctx):
-    if id(ctx) not in _cache:
-        _cache[id(ctx)] = LoaderFacts(ctx)
-    return _cache[id(ctx)]
+    cache = ctx.__dict__.setdefault("_rule_cache", {})
+    if "loaderfacts" not in cache:
+        cache["loaderfacts"] = LoaderFacts(ctx)
+    return cache["loaderfacts"]
